@@ -289,4 +289,29 @@ def boolfacts_step(state: BoolFacts, node: Node, label: str | None):
         for nm in target_names(node.ast.target):
             st.kill(nm)
         return st
+    if node.kind == "call_enter" and label == "call":
+        # parameters of the inlined callee inherit the facts of plain-name
+        # arguments (locals are keyed by name only)
+        from .flow import _bindings
+
+        b = _bindings(node)
+        if b:
+            st = state.copy()
+            new_t, new_n = {}, {}
+            for p, a in b.items():
+                d = dotted(a)
+                if d is None:
+                    if isinstance(a, ast.Constant):
+                        new_n[p] = a.value is None
+                        new_t[p] = bool(a.value)
+                    continue
+                if d in state.truth and isinstance(state.truth[d], bool):
+                    new_t[p] = state.truth[d]
+                if d in state.null:
+                    new_n[p] = state.null[d]
+            for p in b:
+                st.kill(p)
+            st.truth.update(new_t)
+            st.null.update(new_n)
+            return st
     return state
